@@ -156,7 +156,10 @@ static volatile int g_dying = 0;
 void set_current_case(const std::string &text) { g_case = text; g_render = nullptr; }
 void set_current_case_lazy(std::string (*render)(void *), void *ctx) { g_render = render; g_render_ctx = ctx; }
 
+static bool g_capture_off = false;
+void disable_crash_capture() { g_capture_off = true; }
 static void on_death() {
+    if (g_capture_off) return;
     if (g_dying) return; g_dying = 1;
     std::string text = g_render ? g_render(g_render_ctx) : g_case;
     char fn[64]; snprintf(fn, sizeof fn, "/crash-%d.replay", g_stats.shard);
